@@ -91,3 +91,59 @@ Qed.
 Lemma pipeline2_single parsed :
   pipeline2 {| validated := option_map (fun k => (0, k)) parsed; signed := option_map (fun k => (0, k)) parsed |} = pipeline parsed.
 Proof. unfold pipeline2, pipeline. destruct parsed as [k|]; cbn; [destruct (validate k)|]; reflexivity. Qed.
+
+Import ListNotations.
+Theorem pipeline_cfg_weak_is_client_error consults cfg path v s fp :
+  (forall k, v = Some k -> validate (snd k) = false) -> pipeline_cfg consults cfg path v s fp = ClientError.
+Proof.
+  intros H. unfold pipeline_cfg. rewrite (pipeline_of_weak_is_client_error path v s H). reflexivity.
+Qed.
+
+Theorem pipeline_cfg_strong consults cfg path v s fp k :
+  (parses_twice path = true -> s = v) -> pipeline_cfg consults cfg path v s fp = Signed k ->
+  validate k = true /\ (consults = true -> deny_lookup cfg fp = NotDenied).
+Proof.
+  intros A. unfold pipeline_cfg. destruct (pipeline_of path v s) as [k'| |] eqn:P; try discriminate.
+  destruct consults.
+  - destruct (deny_lookup cfg fp) eqn:D; try discriminate. intros H. inversion H; subst.
+    split; [exact (pipeline_of_strong path v s k A P)|reflexivity].
+  - intros H. inversion H; subst. split; [exact (pipeline_of_strong path v s k A P)|discriminate].
+Qed.
+
+Lemma deny_lookup_empty cfg fp : deny_list cfg = [] -> deny_lookup cfg fp = NotDenied.
+Proof. unfold deny_lookup. intros ->. reflexivity. Qed.
+
+(* a denied key is on the list, literally *)
+Lemma deny_lookup_denied cfg fp : deny_lookup cfg fp = Denied -> exists f, fp = Some f /\ In f (deny_list cfg).
+Proof.
+  unfold deny_lookup. destruct (deny_list cfg) as [|d l] eqn:L; [discriminate|].
+  destruct fp as [f|]; [|discriminate]. destruct (existsb (N.eqb f) (d :: l)) eqn:E; [|discriminate].
+  intros _. exists f. split; [reflexivity|]. apply existsb_exists in E. destruct E as [x [Hin Hx]].
+  apply N.eqb_eq in Hx. subst x. exact Hin.
+Qed.
+
+Theorem pipeline_cfg_empty_list consults cfg path v s fp :
+  deny_list cfg = [] -> pipeline_cfg consults cfg path v s fp = pipeline_of path v s.
+Proof.
+  intros E. unfold pipeline_cfg. rewrite (deny_lookup_empty cfg fp E).
+  destruct (pipeline_of path v s); destruct consults; reflexivity.
+Qed.
+
+(* with the default (empty) list the other order cannot be told apart from the right one: a check that
+   drives one configuration does not see it *)
+Theorem pipeline_deny_first_empty_list cfg path v s fp :
+  deny_list cfg = [] -> pipeline_deny_first cfg path v s fp = pipeline_of path v s.
+Proof.
+  intros E. unfold pipeline_deny_first. rewrite (deny_lookup_empty cfg fp E).
+  destruct v; reflexivity.
+Qed.
+
+(* look-up before the strength check: a weak key without an SSH form is answered with a server error
+   as soon as the list is not empty *)
+Theorem pipeline_deny_first_refuted :
+  exists cfg path v s fp, (forall k, v = Some k -> validate (snd k) = false) /\
+                          pipeline_deny_first cfg path v s fp = ServerError.
+Proof.
+  exists {| deny_list := [7] |}, KX509, (Some (1, ECDSA P224)), (Some (1, ECDSA P224)), None.
+  split; [|reflexivity]. intros k H. inversion H; subst. reflexivity.
+Qed.
